@@ -130,8 +130,12 @@
     FILTER_RIGHT((smp_in_r)); \
 } while (0)
 
+/* The accumulator may wrap when very many loud voices add up (the output is
+ * clipped 16 times earlier): add in unsigned arithmetic, signed overflow is
+ * undefined behaviour. */
 #define MIX_OUT(out_sample, out_level) do { \
-    *(buffer++) += (out_sample) * (out_level); \
+    *buffer = (int)((unsigned int)*buffer + (unsigned int)((out_sample) * (out_level))); \
+    buffer++; \
 } while (0)
 
 #define MIX_MONO(smp_in) do { \
